@@ -97,6 +97,25 @@ def run(ctx: Ctx) -> None:
         cases.append(coq_pair('(%s)' % clo, ops, outs, lsets))
         raw.append(dict(imports=imps, history=hist))
         all_srcs.append(srcs)
+        # ---- directed histories: unload one of two unrelated modules whose paths are in string-prefix relation ----
+        for x in range(len(names)):
+            for y in range(len(names)):
+                if x != y and names[y].startswith(names[x]) and x not in import_closure(imps, y) and y not in import_closure(imps, x) and hidx < ctx.n(6, 400):
+                    for victim, kept in ((x, y), (y, x)):
+                        s3 = tsession.Session(srcs)
+                        s3.load(names[kept])
+                        s3.load(names[victim])
+                        s3.unload(names[victim])
+                        ctx.evaluations += 1
+                        ctx.count('directed:prefix-pair')
+                        h3 = [('load', kept), ('load', victim), ('unload', victim), ('transpile', kept)]
+                        try:
+                            text = s3.transpile(names[kept])
+                            if text != fresh[names[kept]]:
+                                ctx.violation('history-dependent-output', 'transpiling a module inside a session history gives a different text than a fresh session', dict(sources=srcs, history=h3, oracle_result=fresh[names[kept]][-300:], impl_result=text[-300:]))
+                        except Errors.Error as e:
+                            ctx.violation('history-breaks-transpile:' + type(e).__name__, 'transpiling a module fails inside a session history although a fresh session succeeds (%s)' % type(e).__name__,
+                                          dict(sources=srcs, history=h3, impl_result=str(e)[:300]))
         # ---- isolation: loading another module changes no symbol / node class of an untouched one ----
         s2 = tsession.Session(srcs)
         a = names[0]
